@@ -118,6 +118,87 @@ def harness_mapping(eng, ctx):
     eng.note({'t': 'reached'})
 
 
+# ---- bit-precise level assignment of samples that sit exactly on a grid level -----------------
+class _CeilReached(BaseException):
+    pass
+
+
+class _CapturingNumpy:
+    """nplite with ``ceil`` cut: the argument of np.ceil in regrid is the series in units of
+    the step; its terms are what decides which level a sample belongs to."""
+
+    def __init__(self, sink):
+        self._sink = sink
+
+    def ceil(self, a):
+        self._sink.append(list(nplite.asarray(a)._d))
+        raise _CeilReached()
+
+    def __getattr__(self, name):
+        return getattr(nplite.np, name)
+
+
+def harness_levels_fp(eng, ctx):
+    """A sample exactly on level k (y = k * step, exactly representable) followed by one half a
+    step higher: the series in step units handed to np.ceil must be exactly (k, k + 1/2), so that
+    level k is reported for the pair (lower value included) and k + 1 is not."""
+    nplite.set_float_mode('F')
+    try:
+        step = float(ctx['step'])
+        K = ctx['K']
+        sink = []
+        rg = loader.load('spowtd.regrid', 'F', bindings=dict(BIND, np=_CapturingNumpy(sink)), fresh=True)
+        fo = loader.load('spowtd.fit_offsets', 'F', bindings=FIT_BIND, submodules={'spowtd.regrid': rg}, fresh=True)
+        k = eng.fint('k', -K, K)
+        kfp = eng.fp_atoms['k']
+        R = z3.RNE()
+        F = symx.F64()
+        y0 = symx.SymF64(z3.fpMul(R, kfp, z3.FPVal(step, F)))          # exact for the steps used (checked below)
+        y1 = symx.SymF64(z3.fpAdd(R, y0.z, z3.FPVal(step / 2, F)))
+        t = nplite.array([0.0, 1800.0])
+        H = nplite.ndarray([y0, y1], (2,), nplite.float64)
+        try:
+            fo.build_head_mapping([(t, H)], step)
+        except _CeilReached:
+            pass
+        except Exception as e:
+            eng.fail_exception(e, label='C12: regridding fails on an on-grid sample (double precision)')
+            return
+        if not eng.prove(len(sink) == 1 and len(sink[0]) == 2, 'C12: level computation reached'):
+            return
+        Y0, Y1 = (symx._lift_f64(v) for v in sink[0])
+        eng.prove(z3.fpEQ(Y0, kfp), 'C12: a sample exactly on level k is assigned level k (double precision)',
+                  detail='step %r' % step)
+        eng.prove(z3.And(z3.fpGT(Y1, kfp), z3.fpLEQ(Y1, z3.fpAdd(R, kfp, z3.FPVal(1.0, F)))),
+                  'C12: a sample half a step above level k lies between k and k+1 (double precision)', detail='step %r' % step)
+        eng.note({'t': 'reached'})
+    finally:
+        nplite.set_float_mode('R')
+
+
+def _fp_task(args):
+    st, K, tmo = args
+    return symx.explore(harness_levels_fp, {'step': st, 'K': K}, name='levels_fp[step=%s]' % st, workers=1,
+                        engine_kw={'query_timeout_ms': tmo, 'oneshot_tactic': 'qffp'})
+
+
+def replay_levels_fp(step, k):
+    import numpy as np
+    real = loader.real_module('spowtd.fit_offsets')
+    y0 = float(k) * step
+    H = np.array([y0, y0 + step / 2])
+    t = np.array([0.0, 1800.0])
+    info = {'series': H.tolist(), 'step': step, 'k': k}
+    try:
+        mp_ = real.build_head_mapping([(t, H)], step)
+    except Exception as e:
+        info['observed'] = '%s: %s' % (type(e).__name__, e)
+        return True, info
+    got = {int(a): [(int(s_), float(v)) for s_, v in b] for a, b in mp_.items()}
+    info['observed'] = got
+    return got != {k: [(0, 0.0)]}, info
+
+
 def replay_regrid(n, m, expect=None, label=None, step=1):
     import numpy as np
     real = loader.real_module('spowtd.regrid')
@@ -206,11 +287,29 @@ class C12(Check):
         exp = symx.explore(harness_mapping, {'n': 3, 'B': 1 if quick else 2}, name='build_head_mapping[n=3]',
                            engine_kw={'query_timeout_ms': 30000})
         self.absorb(exp, need_paths=2)
+        # bit-precise: samples exactly on a grid level (steps for which k*step is exact)
+        fsteps = ['1', '0.5', '3', '75', '49'] if quick else ['1', '0.5', '0.25', '3', '7', '75', '49', '98', '103']
+        K = 1024 if quick else 65536
+        self.bounds['F-mode on-grid samples'] = {'steps': fsteps, '|k|': K}
+        self.assumptions.append('F-mode harness: y = k*step exactly representable (integer or dyadic steps), second sample half a step higher; '
+                                'cut at np.ceil: the rest of regrid is covered over the reals')
+        import multiprocessing as mp
+        with mp.get_context('fork').Pool(min(9, len(fsteps))) as pool:
+            for exp in pool.imap_unordered(_fp_task, [(st, K, 120000 if quick else 900000) for st in fsteps]):
+                self.absorb(exp, need_paths=1)
         for f in self.failures:
+            if f['harness'].startswith('levels_fp'):
+                continue
             f['n'] = int(f['harness'].split('n=')[1].split(',')[0].rstrip(']'))
             f['step'] = f['harness'].split('step=')[1].rstrip(']') if 'step=' in f['harness'] else '1'
 
     def replay(self, failure):
+        if failure['harness'].startswith('levels_fp'):
+            st = float(failure['harness'].split('=')[1].rstrip(']'))
+            mm = model_fractions(failure.get('model'))
+            bad, info = replay_levels_fp(st, int(mm.get('k', 0)))
+            info['expected'] = failure.get('detail')
+            return bad, info
         n = failure['n']
         m = model_fractions(failure.get('model'))
         import numpy as np
